@@ -93,7 +93,7 @@ impl Prop for C05 {
         "C05"
     }
     fn rule(&self) -> String {
-        "Generated: (Decimal representation, n over the whole i8 range weighted to p-1, p, p+1, 0, -1, p-38+-2, -38-p.., i8::MIN/MAX, thread-default mode) for round and checked_round; \
+        "Generated: (Decimal representation, n over the whole i8 range weighted to p-1, p, p+1, 0, -1, p-38+-2, -38-p.., i8::MIN/MAX, thread-default mode) for round and checked_round, each called with method syntax on the value and on a reference and through the trait by name; \
          constructed operands whose discarded part is exactly 1/2 unit, 1/2 +- 1 ulp or zero with last kept digit 0..9; negative n with the re-scaled result within 3 of +-2^127. \
          Enumerated exhaustively: the rounding kernel i128_div_rounded(dividend, divisor, Some(mode)) for dividend in -1000..=1000, divisor in +-1..=+-50, 8 modes (every sign / quotient mod 10 / remainder <,=,> half / remainder 0 class); plus random 127-bit kernel operands. \
          Oracle: round_exact written from the mode definitions (validated against Python's decimal.quantize by tools/oracle_selftest.py). \
@@ -186,9 +186,17 @@ impl Prop for C05 {
                     }
                 }
                 let d = x.dec();
-                for (name, checked, out) in
-                    [("round", false, op(|| d.round(n))), ("checked_round", true, opt(|| d.checked_round(n)))]
-                {
+                // method syntax on the value and through a reference (an inherent method of the same
+                // name would win there), and the trait method named explicitly
+                let dr = &d;
+                for (name, checked, out) in [
+                    ("round", false, op(|| d.round(n))),
+                    ("checked_round", true, opt(|| d.checked_round(n))),
+                    ("(&d).round", false, op(|| dr.round(n))),
+                    ("(&d).checked_round", true, opt(|| dr.checked_round(n))),
+                    ("Round::round(d, n)", false, op(|| fpdec::Round::round(d, n))),
+                    ("Round::checked_round(d, n)", true, opt(|| fpdec::Round::checked_round(d, n))),
+                ] {
                     ctx.sub();
                     ctx.note(|| format!("{name}({n}) mode={} expected {exp} observed {out}", md.name()));
                     if let Err(kind) = judge(&out, &exp, checked) {
